@@ -100,14 +100,15 @@ def match_logs(env, got, ref):
     return best
 
 
-def scen_repeat(env, variant, count, nev, presched=False):
+def scen_repeat(env, variant, count, nev, presched=False, stop_timeout=None):
     circ = fresh_circuit()
     loopref = []
     clock = lambda: loopref[0].time()
     p = Probe('p', clock=clock)
     iv = env.real('interval', 0, 100, lo_open=True)
     if variant == 'explicit':
-        r = edzed.Repeat('r', dest=p, etype='x', interval=iv, count=count)
+        kw = {} if stop_timeout is None else {'stop_timeout': stop_timeout}   # 0 = 'disables the stop_async()'
+        r = edzed.Repeat('r', dest=p, etype='x', interval=iv, count=count, **kw)
         send = lambda v, et: edzed.ExtEvent(r, et, source='_ext_sender').send(v, tag='keep')
         orig = '_ext_sender'
     else:   # implicit: created by Event(..., repeat=)
@@ -169,8 +170,10 @@ def scen_repeat(env, variant, count, nev, presched=False):
         await circ.shutdown()
         n0 = len(p.log)
         await asyncio.sleep(iv * 10)
-        env.check('nothing-after-stop', len(p.log) == n0)
+        env.check('nothing-after-stop', len(p.log) == n0, info=lambda: p.log[n0:])
         env.check('noerror', isinstance(circ.error, asyncio.CancelledError), info=lambda: circ.error)
+        left = [t.get_name() for t in asyncio.all_tasks() if t is not asyncio.current_task() and not t.done()]
+        env.check('nothing-after-stop', left == [], info=lambda: left)
     vloop.run(main())
     got = [(t, d['value'], d['repeat']) for t, _, d in p.log]
     env.obs('repeat', variant, count, [(v, n) for _, v, n in got])
@@ -249,6 +252,9 @@ def shards(tier):
                 out.append({'name': f'{variant} count={count} n={nev}' + (' presched' if ps else ''), 'scenario': 'scen_repeat',
                             'params': {'variant': variant, 'count': count, 'nev': nev, 'presched': ps},
                             'cost': 10 if count in (None, 3) else 2})
+    for count in (None, 3):
+        out.append({'name': f'explicit count={count} n=1 stop_timeout=0', 'scenario': 'scen_repeat',
+                    'params': {'variant': 'explicit', 'count': count, 'nev': 1, 'stop_timeout': 0}})
     for c1 in (None, 0, 1):
         for c2 in (None, 0, 1, 3):
             out.append({'name': f'chain c1={c1} c2={c2}', 'scenario': 'scen_chain', 'params': {'c1': c1, 'c2': c2}})
